@@ -109,9 +109,12 @@ def constant_condition_selection(ctx):
     r = Runner(idx, keep_real=("simplify_conditional_expr",))
     from .c05 import origin
 
-    for val, exp in ((1, "items[1]"), (0, "items[2]"), (7, "items[1]"), (2, "items[1]"), (4, "items[1]"), (-2, "items[1]"), (0x100000000, "items[1]")):
-        fi, outs = r.run("simplify_conditional_expr", lambda val=val: [[number(r, "c", val, True, 32), r.pure("items[1]"), r.pure("items[2]")]], args_list=True)
-        ctx.check(f"constant condition {val} selects", bool(outs) and all(origin(lab(o.value)) == exp for o in outs), exp, str([lab(o.value) for o in outs]), fn_where(idx, fi))
+    # (the constant is a value of its TYPE: what the unary folder leaves for ~0xffffffffU, -4294967296 in an unsigned 32 bit type, is 0)
+    for val, signed, w, exp in ((1, True, 32, "items[1]"), (0, True, 32, "items[2]"), (7, True, 32, "items[1]"), (2, True, 32, "items[1]"), (4, False, 32, "items[1]"), (-2, True, 32, "items[1]"),
+                                (0x100000000, True, 64, "items[1]"), (-0x100000000, False, 32, "items[2]"), (0x100000000, False, 32, "items[2]"), (-0x100000000, True, 64, "items[1]"),
+                                (0x10000000000000000, False, 64, "items[2]"), (0x80000000, False, 32, "items[1]"), (-1, False, 64, "items[1]")):
+        fi, outs = r.run("simplify_conditional_expr", lambda val=val, signed=signed, w=w: [[number(r, "c", val, signed, w), r.pure("items[1]"), r.pure("items[2]")]], args_list=True)
+        ctx.check(f"constant condition {val} of type {'s' if signed else 'u'}{w} selects", bool(outs) and all(origin(lab(o.value)) == exp for o in outs), exp, str([lab(o.value) for o in outs]), fn_where(idx, fi))
     fi, outs = r.run("simplify_conditional_expr", lambda: [[r.pure("c"), r.pure("items[1]"), r.pure("items[2]")]], args_list=True)
     ctx.check("non-constant condition is not folded", [o.value for o in outs] == [None], "None", str([lab(o.value) for o in outs]), fn_where(idx, fi))
     # a converted constant as condition: its truth is that of the CONVERTED value ((uint8_t)0x100 is 0) - folding by the literal below
